@@ -77,6 +77,14 @@ class DataIndexView(BaseDataIndex):
         def _node_factory(_, key, children, *args) -> Optional[_FilterNode]:
             return _FilterNode(key, children, *args)
 
+        if prefix and ensure_loaded:
+            # NOTE: the prefix may lie inside a directory that is not loaded yet
+            # (as in DataIndex.iteritems)
+            item = self._index.longest_prefix(prefix)
+            if item:
+                dir_key, dir_entry = item
+                self._index._load(dir_key, dir_entry)
+
         kwargs = {"prefix": prefix} if prefix is not None else {}
         stack = deque([self.traverse(_node_factory, **kwargs)])
         while stack:
